@@ -29,15 +29,13 @@ def matrix(tier):
             scope = 0 if w == 8 else (1 if (w, cc) in ((16, False), (32, True), (64, True)) else 2)
             m.append((w, cc, 'gcc', '-O2', scope))
         return m
-    # thorough: full alphabet on every variant with gcc -O2 and clang -O2, 8-bit exhaustive under both;
-    # the other compiler/optimisation points run the 8-bit exhaustive scope and the 2-digit alphabet of the wide variants
-    for w, cc in variants():
+    # thorough: 9 variants x {gcc, clang} x {-O0, -O2, -O3} = 54 builds.  Every build of 8-bit digits runs the exhaustive
+    # scope; the wide variants run the 3-digit alphabet at -O2 (both compilers) and the 2-digit alphabet at -O0/-O3.
+    # Order = priority (a deadline cuts the tail): -O2 first, then -O3, then -O0.
+    for opt in ('-O2', '-O3', '-O0'):
         for comp in ('gcc', 'clang'):
-            for opt in ('-O0', '-O2', '-O3'):
-                if w == 8:
-                    scope = 0
-                else:
-                    scope = 1 if opt == '-O2' else 2
+            for w, cc in variants():
+                scope = 0 if w == 8 else (1 if opt == '-O2' else 2)
                 m.append((w, cc, comp, opt, scope))
     return m
 
@@ -124,34 +122,31 @@ def run(tier):
     budget = int(os.environ.get('C01_BUDGET', 0)) or (80 if tier == 'quick' else 840)
     budget = max(budget, int(time.time() - rep.t0) + 25)   # builds on an overloaded machine must not eat the whole window
     env = {'C01_DEADLINE': str(int(rep.t0 + budget))}
-    per_cfg = {}
+    # run order: the -O2 configurations, then (thorough) the 2^32-pair harness, then the remaining optimisation levels
+    order = []
     for c in mx:
         name = cfg_name(*c)
-        if name not in bins:
-            continue
+        if name in bins:
+            order.append((name, bins[name], {'name': name, 'digit_bits': c[0], 'BN_CC_MULL_DIV': c[1], 'cc': c[2], 'opt': c[3],
+                                             'scope': SCOPE_TXT[c[4]]}))
+    xjobs = []
+    for i, b in enumerate(x32):
+        name = 'x32_' + ('cc' if i == 0 else 'port')
+        bins[name] = b
+        xjobs.append((name, b, {'name': name, 'digit_bits': 8, 'BN_CC_MULL_DIV': i == 0, 'cc': 'gcc', 'opt': '-O2 (no ASan)',
+                                'scope': 'all 2^32 operand pairs below 2^16 for add/sub/mult/div/cmp, native uint64_t oracle'}))
+    n_o2 = sum(1 for j in order if 'O2' in j[0])
+    order = order[:n_o2] + xjobs + order[n_o2:]
+    for name, b, desc in order:
         left = budget - (time.time() - rep.t0)
         if left < 1:
             rep.exhaustive = False
             rep.notes.append('time budget exhausted before configuration %s' % name)
             continue
         t1 = time.time()
-        core.run_sharded(rep, bins[name], tier, config=name, deadline_s=left + 25, env=env)
-        per_cfg[name] = round(time.time() - t1, 1)
-        rep.configs.append({'name': name, 'digit_bits': c[0], 'BN_CC_MULL_DIV': c[1], 'cc': c[2], 'opt': c[3],
-                            'scope': SCOPE_TXT[c[4]], 'wall_s': per_cfg[name]})
-    for i, b in enumerate(x32):
-        name = 'x32_' + ('cc' if i == 0 else 'port')
-        bins[name] = b
-        left = budget - (time.time() - rep.t0)
-        if left < 3:
-            rep.exhaustive = False
-            rep.notes.append('time budget exhausted before %s' % name)
-            continue
-        t1 = time.time()
         core.run_sharded(rep, b, tier, config=name, deadline_s=left + 25, env=env)
-        rep.configs.append({'name': name, 'digit_bits': 8, 'BN_CC_MULL_DIV': i == 0, 'cc': 'gcc', 'opt': '-O2 (no ASan)',
-                            'scope': 'all 2^32 operand pairs below 2^16 for add/sub/mult/div/cmp, native uint64_t oracle',
-                            'wall_s': round(time.time() - t1, 1)})
+        desc['wall_s'] = round(time.time() - t1, 1)
+        rep.configs.append(desc)
 
     # fold the NOTE lines of all shards
     agg = {}
